@@ -1,0 +1,14 @@
+//go:build verif
+
+// Contracts for gzv (contract-based deductive verification, /verif). Comment-only file.
+package clientinterceptors
+
+// C04 zRPC client: with a positive timeout the invoker gets WithTimeout(caller's ctx, t); otherwise the caller's context unchanged.
+//@ func TimeoutInterceptor closure 0
+//@   property C04
+//@   flag callbacks_noheap noheap:cancel nopanic:cancel
+//@   ghost at entry: ctx0 = ctx
+//@   ghost at after getTimeoutFromCallOptions#0: tt = ret
+//@   call invoker#0: assert arg0 == ctx0 && tt <= 0
+//@   call WithTimeout#0: assert arg_parent == ctx0 && arg_timeout == tt && tt > 0
+//@   call invoker#1: assert ctxParent[arg0] == ctx0 && ctxTimeout[arg0] == tt && tt > 0
